@@ -56,7 +56,49 @@ def run_property(pid, tier):
                     obs.append(o)
                 cfg_diff.append({'config': cfg, 'only_there': [o.key for o in extra],
                                  'only_base': [k for k in base_v if k not in v2]})
+    if tier == 'thorough' and REPO == '/repo' and os.environ.get('VERIF_CONTROLS', '1') != '0':
+        meta = dict(meta)
+        meta['positive_controls'] = run_controls(pid)
+        silent = [c['name'] for c in meta['positive_controls']['results'] if c['status'] == 'SILENT']
+        if silent:
+            raise ToolError('positive control(s) silent for %s: %s — the rule set no longer fires on a seeded violation; verdict withheld' % (pid, silent))
     return finish(pid, tier, spec, ctx, obs, meta, configs, cfg_diff, t0)
+
+
+def run_controls(pid):
+    """thorough tier: scripted single edits (selftest/mutants.json) that break this property are
+    applied to scratch copies of the current /repo; the quick check must report each.  A control
+    whose edit no longer applies to the current tree is skipped (the code it targets has changed)."""
+    import shutil, subprocess, tempfile, concurrent.futures as cf
+    mpath = os.path.join(VERIF, 'selftest', 'mutants.json')
+    if not os.path.exists(mpath):
+        return {'results': []}
+    ms = [m for m in json.load(open(mpath)) if pid in m.get('expect', [])]
+
+    def one(m):
+        d = tempfile.mkdtemp(prefix='ee-ctl-')
+        try:
+            dst = os.path.join(d, 'repo')
+            shutil.copytree(REPO, dst, ignore=shutil.ignore_patterns('target', '.git'))
+            for e in m['edits']:
+                fp = os.path.join(dst, e['file'])
+                s = open(fp).read()
+                if e['old'] not in s:
+                    return {'name': m['name'], 'status': 'SKIPPED', 'why': 'edit does not apply to the current tree'}
+                open(fp, 'w').write(s.replace(e['old'], e['new'], e.get('count', 1)))
+            env = dict(os.environ, VERIF_REPO=dst, VERIF_NO_EVIDENCE='1', VERIF_CONTROLS='0')
+            p = subprocess.run([os.path.join(VERIF, 'check'), pid, 'quick'], env=env, stdout=subprocess.PIPE, stderr=subprocess.STDOUT, text=True)
+            if p.returncode == 1:
+                v = [l for l in p.stdout.splitlines() if l.startswith('VIOLATION')]
+                return {'name': m['name'], 'status': 'REPORTED', 'violations': len(v)}
+            if p.returncode == 2:
+                return {'name': m['name'], 'status': 'SKIPPED', 'why': 'edited copy does not build / tool failure'}
+            return {'name': m['name'], 'status': 'SILENT'}
+        finally:
+            shutil.rmtree(d, ignore_errors=True)
+    with cf.ThreadPoolExecutor(max_workers=8) as ex:
+        res = list(ex.map(one, ms))
+    return {'results': res, 'reported': len([r for r in res if r['status'] == 'REPORTED']), 'skipped': len([r for r in res if r['status'] == 'SKIPPED'])}
 
 
 def finish(pid, tier, spec, ctx, obs, meta, configs, cfg_diff, t0):
@@ -110,6 +152,7 @@ def finish(pid, tier, spec, ctx, obs, meta, configs, cfg_diff, t0):
                              call_sites=sum(len(b.live_calls) for b in ctx.facts.bodies),
                              statics=len(ctx.facts.statics), adts=len(ctx.facts.adts)),
             'floors': meta.get('floors', {}),
+            'positive_controls': meta.get('positive_controls', 'thorough tier only'),
             'not_decided': spec.get('not_decided', ''),
             'build_configurations': configs,
             'configuration_differences': cfg_diff,
